@@ -23,7 +23,9 @@ TRANSLATED = {'C17': ('calendar_src', 'extract_calendar', 'calendar.py'), 'C18':
               'C03': ('schedule_src', 'extract_schedule'), 'C04': ('schedule_src', 'extract_schedule', 'pass_src', 'extract_pass'),
               'C08': ('schedule_src', 'extract_schedule', 'pass_src', 'extract_pass'),
               'C09': ('schedule_src', 'extract_schedule', 'pass_src', 'extract_pass'),
-              'C02': ('pass_src', 'extract_pass'), 'C07': ('pass_src', 'extract_pass')}
+              'C02': ('pass_src', 'extract_pass'), 'C07': ('pass_src', 'extract_pass'),
+              'C14': ('calc_src', 'extract_calc', 'pass_src', 'extract_pass', 'schedule_src', 'extract_schedule'),
+              'C06': ('calc_src', 'extract_calc', 'pass_src', 'extract_pass', 'schedule_src', 'extract_schedule')}
 
 
 CASE_TIMEOUT = float(os.environ.get('VERIF_CASE_TIMEOUT', '20'))
